@@ -73,11 +73,13 @@ def build_file(case):
     syms = case['syms']
     names = [s['name'] for s in syms]
     blob, offs = W.build_strtab(names, share_suffix=case.get('share_suffix', False))
-    symdata = b''.join(W.enc_sym(cls, le, offs[s['name']], s['value'], s['size'], s['info'], s['other'], s['shndx']) for s in syms)
+    # sh_entsize may exceed the size of Elf_Sym (the gABI gives every table its entry size in the header): entries are then padded
+    sympad = case.get('sympad', 0)
+    symdata = b''.join(W.enc_sym(cls, le, offs[s['name']], s['value'], s['size'], s['info'], s['other'], s['shndx']) + bytes((0xa5 + k) & 0xff for k in range(sympad)) for s in syms)
     P = case.get('pad', 0)      # filler sections in front: the tables then sit at (and link to) large section indices
     secs = [{'name': '', 'sh_type': 0}] + [{'name': 'f%d' % (i % 9), 'sh_type': 1, 'data': None, 'sh_offset': 0, 'sh_size': 0} for i in range(P)] + [
             {'name': '.dynstr', 'sh_type': 3, 'data': blob},
-            {'name': '.dynsym', 'sh_type': case['tabtype'], 'data': symdata, 'sh_entsize': W.SYM_SIZE[cls], 'sh_link': P + 1, 'sh_info': 1}]
+            {'name': '.dynsym', 'sh_type': case['tabtype'], 'data': symdata, 'sh_entsize': W.SYM_SIZE[cls] + sympad, 'sh_link': P + 1, 'sh_info': 1}]
     idx = {}
     bnames = [n.encode('utf-8') for n in names]
     if case.get('shndx_table') is not None:
@@ -89,12 +91,12 @@ def build_file(case):
         order = case['sysv'].get('order')
         key = (lambda i: order.index(i)) if order else None
         secs.append({'name': '.hash', 'sh_type': 5, 'sh_link': P + 2, 'sh_entsize': 4,
-                     'data': W.enc_sysv_hash(le, bnames, case['sysv']['nbucket'], key)})
+                     'data': W.enc_sysv_hash(le, bnames, case['sysv']['nbucket'], key) + bytes(case.get('hash_slack', 0))})
     if case.get('gnu'):
         g = case['gnu']
         idx['gnu'] = len(secs)
         secs.append({'name': '.gnu.hash', 'sh_type': 0x6ffffff6, 'sh_link': P + 2,
-                     'data': W.enc_gnu_hash(cls, le, bnames, g['symoffset'], g['nbuckets'], g['bloom_size'], g['bloom_shift'])})
+                     'data': W.enc_gnu_hash(cls, le, bnames, g['symoffset'], g['nbuckets'], g['bloom_size'], g['bloom_shift']) + bytes(case.get('hash_slack', 0))})
     if case.get('syminfo') is not None:
         idx['syminfo'] = len(secs)
         secs.append({'name': '.SUNW_syminfo', 'sh_type': 0x6ffffffc, 'sh_link': P + 2, 'sh_entsize': 4,
@@ -217,6 +219,10 @@ def run_case(ctx, case):
     # complete walk; 2 = name lookups first; 3 = name lookups from inside the loop body of the very first walk.
     first_use = core.digest(data)[0] % 4
     ctx.count('first-use.%d' % first_use)
+    if case.get('sympad'):
+        ctx.count('symtab.entries-padded')
+    if case.get('hash_slack') and (case.get('gnu') or case.get('sysv')):
+        ctx.count('hash.section-larger-than-table')
     keep_alive = []
 
     def sequential():
@@ -441,6 +447,12 @@ def build_case(ch, tier, n=None):
                      'other': ch.choice([0, 1, 2, 3, ch.int(0, 255)]), 'shndx': shndx})
     case = {'cls': cls, 'le': le, 'syms': syms, 'tabtype': ch.choice([11, 11, 2, 0x6ffffff3]), 'gnu': gnu,
             'share_suffix': ch.bool(0.3), 'e_machine': ch.choice([62, 3, 40, 21, 2, ch.choice(MACHINES), ch.choice(MACHINES)]), 'osabi': ch.choice([0, 0, 6])}
+    if ch.bool(0.15):
+        case['sympad'] = ch.choice([8, 8, 16, 4, 24])
+    if ch.bool(0.2):
+        # the section that holds a hash table may be larger than the table (rounded up to its alignment, spare words): the table ends
+        # where its own counts and chain end bits say
+        case['hash_slack'] = ch.choice([4, 8, 12, 16])
     hashable = case['tabtype'] in (2, 11)     # hash / syminfo sections must link to SYMTAB or DYNSYM
     wide_hash = cls == 64 and case['e_machine'] in WIDE_HASH_MACHINES
     if not hashable:
